@@ -223,6 +223,11 @@ def t_restart(ctx):
             st['late'] = 'accepted'
         except Exception as ex:  # noqa
             st['late'] = 'raise:' + type(ex).__name__
+            if how == 'stop':
+                # rejected, nothing to wait for (on this tree the rejected dispatch also leaves a run-loop task spinning on the
+                # shut-down queue — observation F19, not part of this property — so the template must not sleep here)
+                st['done'] = True
+                return
         await asyncio.sleep(2)
         st['done'] = True
 
@@ -252,6 +257,8 @@ def jobs(tier):
     out.append(Job('C14', 'k.dispatch', t_dispatch_kernel, dict(p=3, inside=False, limits=True, loop=False)))
     for dd in ('1/5', '1/20'):
         out.append(Job('C14', 's1.restart', t_restart, dict(how='cancel', d=dd), witnesses=('late dispatch accepted',)))
+    for dd in ('1/20', '1/2'):
+        out.append(Job('C14', 's1.restart', t_restart, dict(how='stop', d=dd)))
     if tier == 'quick':
         out.append(Job('C14', 's1.flood', t_flood, dict(n_range=[47, 54]), witnesses=('rejection inside a handler',)))
         out.append(Job('C14', 's1.flood', t_flood, dict(n_range=[50, 53], retry=True), witnesses=('retry accepted',)))
